@@ -141,6 +141,9 @@ func ctxPrecLimit() int {
 func genC19(t *rapid.T) C19Case {
 	c := C19Case{P: uint(rapid.IntRange(0, ctxPrecLimit()).Draw(t, "cp")), M: h.GenMode(t, "cm")}
 	nv := 4
+	// all variables of a run live in one zone of the exponent range, so that they can interact: the middle, or right at
+	// the bottom / top end (cancellations that underflow, sums and products that overflow)
+	zone := rapid.SampledFrom([]string{"mid", "mid", "mid", "mid", "mid", "mid", "low", "high"}).Draw(t, "zone")
 	for i := 0; i < nv; i++ {
 		switch rapid.IntRange(0, 4).Draw(t, "init.kind") {
 		case 0:
@@ -148,7 +151,15 @@ func genC19(t *rapid.T) C19Case {
 		default:
 			d := h.GenDigits(t, "init.d", 80)
 			s := h.Spec{F: "f", D: d, E: int64(rapid.IntRange(-60, 60).Draw(t, "init.e")), Neg: rapid.Bool().Draw(t, "init.neg"), M: h.GenMode(t, "init.m")}
-			s.P = uint(len(d) + rapid.IntRange(0, 30).Draw(t, "init.p"))
+			switch zone {
+			case "low":
+				s.E = model.MinExp + int64(rapid.IntRange(0, 2).Draw(t, "init.elow"))
+				s.D = "1234567" + rapid.SampledFrom([]string{"", "1", "2", "25", "3"}).Draw(t, "init.dlow") // shared leading digits: differences underflow
+			case "high":
+				s.E = model.MaxExp - int64(rapid.IntRange(0, 2).Draw(t, "init.ehigh"))
+				s.D = rapid.SampledFrom([]string{"9", "99", "5", "1", "95"}).Draw(t, "init.dhigh")
+			}
+			s.P = uint(len(s.D) + rapid.IntRange(0, 30).Draw(t, "init.p"))
 			c.Init = append(c.Init, s)
 		}
 	}
@@ -388,6 +399,11 @@ func checkC19(c C19Case, o *h.Obs) *h.Fail {
 			}
 			if want.Acc != model.Exact {
 				o.Label("rounded-to-context")
+				if want.V.Form == model.Zero {
+					o.Label("underflow-to-zero")
+				} else if want.V.Form == model.Inf {
+					o.Label("overflow-to-inf")
+				}
 			}
 		case s.Op == "err":
 			if latched {
@@ -455,7 +471,7 @@ func checkC19(c C19Case, o *h.Obs) *h.Fail {
 	return nil
 }
 
-const ruleC19 = "rapid state machine: one Context (precision 0..120 (quick) / 600 (thorough), any mode) and four variables with their own precision and mode (finite, zeros, infinities); steps drawn against the current state from Add/Sub/Mul/Quo/FMA/Sqrt/Neg/Abs/Set (receiver distinct from the operands in 3 of 4 draws, steered now and then to 0/0, Inf-Inf, 0*Inf, Inf/Inf, Sqrt(-x)), Err, SetPrec, SetMode, New/NewInt64/NewUint64/NewInt/NewRat/NewFloat64/NewString/ParseDecimal with valid arguments, and poison steps (a nil operand makes the wrapped operation panic with a runtime error). Model of the context (precision, mode, latched): not latched => result == reference operation rounded to the context's precision and mode and the receiver carries them (aliased receivers: operands first rounded to the context, as documented); NaN => no panic, receiver returned, error latched; latched => every operation returns its receiver and all variables are bit-identical; Err() returns an ErrNaN exactly once and re-arms; poison => the panic propagates and nothing is latched. Non-trivial = a run with a NaN step followed by at least two operations and an Err, or with a poison step."
+const ruleC19 = "rapid state machine: one Context (precision 0..120 (quick) / 600 (thorough), any mode) and four variables with their own precision and mode (finite, zeros, infinities; in one run of four all of them sit at the bottom or at the top end of the exponent range, with shared leading digits, so that differences underflow and sums overflow); steps drawn against the current state from Add/Sub/Mul/Quo/FMA/Sqrt/Neg/Abs/Set (receiver distinct from the operands in 3 of 4 draws, steered now and then to 0/0, Inf-Inf, 0*Inf, Inf/Inf, Sqrt(-x)), Err, SetPrec, SetMode, New/NewInt64/NewUint64/NewInt/NewRat/NewFloat64/NewString/ParseDecimal with valid arguments, and poison steps (a nil operand makes the wrapped operation panic with a runtime error). Model of the context (precision, mode, latched): not latched => result == reference operation rounded to the context's precision and mode and the receiver carries them (aliased receivers: operands first rounded to the context, as documented); NaN => no panic, receiver returned, error latched; latched => every operation returns its receiver and all variables are bit-identical; Err() returns an ErrNaN exactly once and re-arms; poison => the panic propagates and nothing is latched. Non-trivial = a run with a NaN step followed by at least two operations and an Err, or with a poison step."
 
 var propC19 = &h.Prop[C19Case]{ID: "C19", Rule: ruleC19, Gen: genC19, Check: checkC19, Matchers: map[string]func(C19Case) bool{}}
 
